@@ -4457,3 +4457,7 @@ pub enum CoreError {
 
 #[cfg(not(feature = "no-entrypoint"))]
 gmsol_utils::security_txt!("GMX-Solana Store Program");
+
+/// Verification hooks: additive re-exports of crate-private items for the /verif harness.
+#[cfg(feature = "verif-hooks")]
+pub mod verif;
